@@ -53,6 +53,9 @@ pub enum End {
     AllFinished,
     Deadlock,
     Horizon,
+    /// a logical thread ran for 10 s without reaching a decision point (it is spinning, or
+    /// blocked on something the scheduler does not control)
+    Stuck,
 }
 
 impl Point {
@@ -84,6 +87,10 @@ struct SS {
     env_left: u32,
     last: Option<usize>,
     pcs: Vec<usize>,
+    /// choice vector to replay (then answer 0 everywhere)
+    prefix: Vec<usize>,
+    horizon: usize,
+    end: Option<End>,
     steps: Vec<Step>,
     /// hook events seen from a thread that already holds the lock etc. (diagnostics)
     notes: Vec<String>,
@@ -91,7 +98,10 @@ struct SS {
 
 pub struct Sched {
     m: Mutex<SS>,
+    /// the explorer waits here
     cv: Condvar,
+    /// each logical thread waits on its own condition variable (no thundering herd)
+    cvt: Vec<Condvar>,
 }
 
 thread_local! {
@@ -103,7 +113,7 @@ pub fn set_current(id: Option<usize>) {
 }
 
 impl Sched {
-    pub fn new(nthreads: usize, spurious: u32, env: u32) -> Arc<Sched> {
+    pub fn new(nthreads: usize, spurious: u32, env: u32, prefix: &[usize], horizon: usize) -> Arc<Sched> {
         Arc::new(Sched {
             m: Mutex::new(SS {
                 at: vec![None; nthreads],
@@ -119,11 +129,21 @@ impl Sched {
                 env_left: env,
                 last: None,
                 pcs: vec![0; nthreads],
+                prefix: prefix.to_vec(),
+                horizon,
+                end: None,
                 steps: Vec::new(),
                 notes: Vec::new(),
             }),
             cv: Condvar::new(),
+            cvt: (0..nthreads).map(|_| Condvar::new()).collect(),
         })
+    }
+
+    fn wake_all_threads(&self) {
+        for c in &self.cvt {
+            c.notify_all();
+        }
     }
 
     /// Called by a logical thread: block at a decision point until granted.
@@ -136,7 +156,9 @@ impl Sched {
         if s.running == Some(me) {
             s.running = None;
         }
-        self.cv.notify_all();
+        // The arriving thread takes the scheduling decision itself: when the default choice
+        // "continue the same thread" applies there is no context switch at all.
+        self.schedule(&mut s);
         loop {
             if s.aborted {
                 s.at[me] = None;
@@ -150,7 +172,7 @@ impl Sched {
                     return Ok(a);
                 }
             }
-            s = self.cv.wait(s).unwrap();
+            s = self.cvt[me].wait(s).unwrap();
         }
     }
 
@@ -160,6 +182,7 @@ impl Sched {
         if s.running == Some(me) {
             s.running = None;
         }
+        self.schedule(&mut s);
         self.cv.notify_all();
     }
 
@@ -254,33 +277,31 @@ impl Sched {
         opts
     }
 
-    /// Explorer side: wait until no thread is running, then grant one option. `choose` maps the
-    /// option list to an index. Returns `Some(end)` when the execution is over.
-    pub fn step(&self, horizon: usize, choose: &mut dyn FnMut(&[Opt]) -> usize) -> Option<End> {
-        let mut s = self.m.lock().unwrap();
-        loop {
-            let all_parked = s.running.is_none() && s.grant.is_none() && (0..s.at.len()).all(|t| s.finished[t] || s.at[t].is_some());
-            if all_parked {
-                break;
-            }
-            s = self.cv.wait(s).unwrap();
+    /// Takes the next scheduling decision if every unfinished thread is blocked at a decision
+    /// point. Called (with the state locked) by whichever logical thread arrives last.
+    fn schedule(&self, s: &mut SS) {
+        if s.end.is_some() || s.aborted || s.grant.is_some() || s.running.is_some() {
+            return;
+        }
+        if (0..s.at.len()).any(|t| !s.finished[t] && s.at[t].is_none()) {
+            return; // somebody has not arrived yet
         }
         if s.finished.iter().all(|f| *f) {
-            return Some(End::AllFinished);
-        }
-        let opts = Self::options(&s);
-        if opts.is_empty() {
-            s.aborted = true;
+            s.end = Some(End::AllFinished);
             self.cv.notify_all();
-            return Some(End::Deadlock);
+            return;
         }
-        if s.steps.len() >= horizon {
+        let opts = Self::options(s);
+        if opts.is_empty() || s.steps.len() >= s.horizon {
+            s.end = Some(if opts.is_empty() { End::Deadlock } else { End::Horizon });
             s.aborted = true;
+            self.wake_all_threads();
             self.cv.notify_all();
-            return Some(End::Horizon);
+            return;
         }
-        let k = choose(&opts);
-        assert!(k < opts.len(), "choice {k} out of range {} while replaying a prefix", opts.len());
+        let i = s.steps.len();
+        let k = if i < s.prefix.len() { s.prefix[i] } else { 0 };
+        assert!(k < opts.len(), "replay divergence: choice {k} of {} at step {i}", opts.len());
         let o = opts[k];
         let p = s.at[o.thread].unwrap();
         let at: Vec<Option<&'static str>> = s.at.iter().map(|p| p.map(|p| p.kind())).collect();
@@ -306,16 +327,40 @@ impl Sched {
         s.steps.push(Step { opts, chosen: k, point: p, pcs, at, holder, woken, delivered });
         s.last = Some(o.thread);
         s.grant = Some((o.thread, o.answer));
-        self.cv.notify_all();
-        None
+        self.cvt[o.thread].notify_all();
     }
 
-    /// After an abort: wait for the logical threads to wind down.
-    pub fn wait_all_finished(&self) {
+    /// Explorer side: wait for the execution to end (10 s watchdog for a thread that spins or
+    /// blocks outside the scheduler's control).
+    pub fn wait_end(&self) -> End {
         let mut s = self.m.lock().unwrap();
-        while !s.finished.iter().all(|f| *f) {
-            s = self.cv.wait(s).unwrap();
+        let t0 = std::time::Instant::now();
+        loop {
+            if let Some(e) = s.end {
+                return e;
+            }
+            if t0.elapsed() > std::time::Duration::from_secs(10) {
+                s.end = Some(End::Stuck);
+                s.aborted = true;
+                self.wake_all_threads();
+                return End::Stuck;
+            }
+            s = self.cv.wait_timeout(s, std::time::Duration::from_millis(500)).unwrap().0;
         }
+    }
+
+    /// Returns false if they did not finish within 3 s (e.g. a thread really blocked on the
+    /// mutex it holds itself); the caller then abandons those host threads.
+    pub fn wait_all_finished(&self) -> bool {
+        let mut s = self.m.lock().unwrap();
+        let t0 = std::time::Instant::now();
+        while !s.finished.iter().all(|f| *f) {
+            if t0.elapsed() > std::time::Duration::from_secs(3) {
+                return false;
+            }
+            s = self.cv.wait_timeout(s, std::time::Duration::from_millis(200)).unwrap().0;
+        }
+        true
     }
 
     pub fn take_steps(&self) -> (Vec<Step>, Vec<String>) {
@@ -418,10 +463,30 @@ impl Hosts {
 }
 
 thread_local! {
-    static HOSTS: std::cell::OnceCell<Hosts> = const { std::cell::OnceCell::new() };
+    static HOSTS: std::cell::RefCell<Option<std::rc::Rc<Hosts>>> = const { std::cell::RefCell::new(None) };
 }
 
 /// Runs `f` with the calling explorer thread's pair of host threads.
 pub fn with_hosts<R>(f: impl FnOnce(&Hosts) -> R) -> R {
-    HOSTS.with(|h| f(h.get_or_init(|| Hosts::new(2))))
+    let h = HOSTS.with(|h| h.borrow_mut().get_or_insert_with(|| std::rc::Rc::new(Hosts::new(2))).clone());
+    f(&h)
+}
+
+/// Abandons the current host threads (they are stuck inside the subject) and starts fresh ones
+/// at the next use.
+static ABANDONED: std::sync::atomic::AtomicUsize = std::sync::atomic::AtomicUsize::new(0);
+
+/// Number of executions whose threads had to be abandoned (each costs seconds and leaks two
+/// threads, so explorers stop early once a few have happened: the verdict is a violation anyway).
+pub fn abandon_count() -> usize {
+    ABANDONED.load(std::sync::atomic::Ordering::Relaxed)
+}
+
+pub fn abandon_hosts() {
+    ABANDONED.fetch_add(1, std::sync::atomic::Ordering::Relaxed);
+    HOSTS.with(|h| {
+        if let Some(old) = h.borrow_mut().take() {
+            std::mem::forget(old);
+        }
+    });
 }
